@@ -1,4 +1,4 @@
 SPECIFICATION Spec
 CONSTANTS EofRefuses = TRUE  Tier = "quick"  Mode = "intact"  Emit = TRUE
-INVARIANTS LoadIsIntended LookupIsIntended EmitDoc
+INVARIANTS LoadIsIntended LookupIsIntended IntendedAccepted EmitDoc
 CHECK_DEADLOCK FALSE
